@@ -472,10 +472,12 @@ class The(ResultQuantifier[T]):
     """
 
     def evaluate(self) -> TypingUnion[Iterable[T], T, UnificationDict]:
-        result = self._evaluate_()
-        result = self._process_result_(result)
-        self._reset_cache_()
-        return result
+        try:
+            result = self._evaluate_()
+            return self._process_result_(result)
+        finally:
+            # also when no solution or multiple solutions were found, or user code raised.
+            self._reset_cache_()
 
     def _evaluate__(self, sources: Optional[Dict[int, HashedValue]] = None, yield_when_false: bool = False) -> Iterable[Dict[int, HashedValue]]:
         v = self._evaluate_(sources, yield_when_false=yield_when_false)
@@ -517,11 +519,14 @@ class An(ResultQuantifier[T]):
         self._node_.wrap_subtree = True
 
     def evaluate(self) -> Iterable[TypingUnion[T, Dict[TypingUnion[T, SymbolicExpression[T]], T]]]:
-        with symbolic_mode(mode=None):
-            results = self._evaluate__()
-            assert not in_symbolic_mode()
-            yield from map(self._process_result_, results)
-        self._reset_cache_()
+        try:
+            with symbolic_mode(mode=None):
+                results = self._evaluate__()
+                assert not in_symbolic_mode()
+                yield from map(self._process_result_, results)
+        finally:
+            # also when the iterator is closed or dropped before it is exhausted, or user code raised.
+            self._reset_cache_()
 
     def _evaluate__(self, sources: Optional[Dict[int, HashedValue]] = None, yield_when_false: bool = False) -> Iterable[T]:
         sources = sources or {}
